@@ -6,7 +6,7 @@ ROWS = "ABCDEFGHIJKLMNOPQRSTUVWXYZ"
 BOUNDS = {
     "quick": "(num) Labware(rows 1..2 x columns 1..2; per-well initial volumes for up to 2 wells, scalar for 2x2) and Trough(virtual_rows 1|3 x columns 1..2) with min_volume, max_volume and the initial volumes ranging over ALL "
              "IEEE-754 doubles (NaN, +-inf, -0.0 included), initial volumes given as scalar / flat list / 2-D list (per-column list for troughs), bit-precise; "
-             "(size) rows in {-1,0,1,2,26,27,40,2.5,'2',None,True}, columns in {-1,0,1,2,120,2.5,None}, virtual_rows in {None,-1,0,1,26,27,2.5,'3'} with concrete "
+             "(layout) initial volumes as numpy arrays, C-ordered and as a transposed view, plates 2x2 / 2x3 with symbolic volumes; (alias) two labware built from one float array must not share state (concrete, real numpy); (size) rows in {-1,0,1,2,26,27,40,2.5,'2',None,True}, columns in {-1,0,1,2,120,2.5,None}, virtual_rows in {None,-1,0,1,26,27,2.5,'3'} with concrete "
              "volumes; (names) component_names / column_names for empty, filled and unknown wells and per-column lists of wrong length",
     "thorough": "rows 1..3 x columns 1..3 for the numeric part",
 }
@@ -23,6 +23,11 @@ def shards(tier):
                 if tier == "quick" and R * C > 2 and shape in ("flat", "2d"):
                     continue   # four independent doubles plus two limits: ~5 min of FP solving, thorough tier only
                 out.append(dict(part="num", kind="plate", R=R, C=C, shape=shape))
+    # initial volumes given as numpy arrays: C-ordered, and a transposed view (column-major in memory); Real arithmetic, layout is the subject
+    for R, C in ((2, 2), (2, 3)):
+        for shape in ("ndarray", "ndarrayT"):
+            out.append(dict(part="layout", kind="plate", R=R, C=C, shape=shape))
+    out.append(dict(part="alias", concrete=True))
     for V in (1, 3):
         for C in range(1, mx + 1):
             for shape in ("scalar", "flat"):
@@ -38,13 +43,15 @@ def weight(p):
 
 
 def engine_opts(p, tier):
+    if p["part"] == "layout":
+        return dict(mode="real")
     if p["part"] == "num":
         return dict(mode="fp", lazy=True, rlimit=0, timeout_ms=300_000)
     return dict(mode="real")
 
 
 def witnesses(tier):
-    return {"num:ok", "num:rejected", "size:ok", "size:rejected", "names:ok", "names:rejected"}
+    return {"num:ok", "num:rejected", "size:ok", "size:rejected", "names:ok", "names:rejected", "layout:ok", "alias:ok"}
 
 
 def scenario(ctx, p):
@@ -71,6 +78,29 @@ def scenario(ctx, p):
         if p["kind"] == "plate":
             return ns.Labware("L", R, C, min_volume=vmin, max_volume=vmax, initial_volumes=arg)
         return ns.Trough("L", R, C, min_volume=vmin, max_volume=vmax, initial_volumes=arg)
+    if part == "layout":
+        R, C = p["R"], p["C"]
+        np = ctx.np
+        given = [[ctx.real(f"iv{r}_{cc}", 0, 50) for cc in range(C)] for r in range(R)]
+        if p["shape"] == "ndarray":
+            arg = np.array(given)
+        else:
+            arg = np.array([[given[r][cc] for r in range(R)] for cc in range(C)]).T   # same logical content, column-major in memory
+        c.update(given=given, R=R, C=C, realR=R, kind="plate", vmin=0.0, vmax=100.0)
+        return ns.Labware("L", R, C, min_volume=0.0, max_volume=100.0, initial_volumes=arg)
+    if part == "alias":
+        import numpy
+        arr = numpy.array([[5.0, 6.0], [7.0, 8.0]])
+        keep = arr.copy()
+        A = ns.Labware("A", 2, 2, min_volume=0, max_volume=100, initial_volumes=arr)
+        B = ns.Labware("B", 2, 2, min_volume=0, max_volume=100, initial_volumes=arr)
+        A.add("A01", 10.0)
+        A.remove("B02", 1.0)
+        tarr = numpy.array([5.0, 6.0])
+        T = ns.Trough("T", 3, 2, min_volume=0, max_volume=100, initial_volumes=tarr)
+        T.add("B01", 1.0)
+        c.update(alias=dict(arr=arr.tolist(), keep=keep.tolist(), A=A.volumes.tolist(), B=B.volumes.tolist(), B_hist=B.history[0][1].tolist(), tarr=tarr.tolist(), T=T.volumes.tolist()))
+        return A
     if part == "size":
         if p["kind"] == "plate":
             rows = ctx.choose("rows", [-1, 0, 1, 2, 26, 27, 40, 2.5, "2", None, True])
@@ -138,6 +168,39 @@ def judge(ctx, p, outcome):
     part = p["part"]
     if part == "num":
         judge_num(ctx, p, c, kind, val)
+        return
+    if part == "layout":
+        if kind == "exc":
+            ctx.violate(f"C20: a valid numpy array of initial volumes was rejected: {type(val).__name__}: {val}")
+            return
+        ctx.reach("layout:ok")
+        lab = val
+        given = c["given"]
+        for m in grid_ok(ctx, lab, c["R"], c["R"], c["C"], False):
+            ctx.violate(f"C20: {m}")
+            return
+        ctx.prove(ctx.all_of([ctx.eq(lab._volumes[r, cc], given[r][cc]) for r in range(c["R"]) for cc in range(c["C"])]),
+                  "C20: initial volumes given as a numpy array are not laid out as given (memory layout of the argument must not matter)")
+        ctx.prove(ctx.all_of([ctx.eq(lab._history[0][r, cc], given[r][cc]) for r in range(c["R"]) for cc in range(c["C"])]), "C20: the initial history entry differs from the given volumes")
+        for r in range(c["R"]):
+            for cc in range(c["C"]):
+                tot = 0
+                for k_, arr in lab.composition.items():
+                    tot = tot + arr[r, cc]
+                ctx.prove(ctx.eq(tot, ctx.ite(given[r][cc] > 0, 1, 0)), "C20: the 100 % component does not sit on precisely the non-empty wells")
+        return
+    if part == "alias":
+        if kind == "exc":
+            ctx.violate(f"C20: {type(val).__name__}: {val}")
+            return
+        ctx.reach("alias:ok")
+        a = c["alias"]
+        if a["arr"] != a["keep"] or a["tarr"] != [5.0, 6.0]:
+            ctx.violate("C20: operations on a labware changed the array that was passed as initial_volumes", info=repr(a))
+        if a["B"] != a["keep"] or a["B_hist"] != a["keep"]:
+            ctx.violate("C20: two labware built from the same initial_volumes array share their volumes", info=repr(a))
+        if a["A"] != [[15.0, 6.0], [7.0, 7.0]] or a["T"] != [[6.0, 6.0]]:
+            ctx.violate("C20: volumes after add/remove on a labware built from a numpy array are wrong", info=repr(a))
         return
     if part == "size":
         rows, cols, vr = c["rows"], c["cols"], c["vr"]
